@@ -1490,3 +1490,503 @@ Theorem C14_node_room_needed :
 Proof. exact room_needed. Qed.
 Print Assumptions C14_node_room_needed.
 
+
+
+(* ====================================================================== *)
+(* ==== application contract ============================================ *)
+(* ====================================================================== *)
+(* M/RaftProofsAppContract.v: the caller-side hypotheses that the node-level trace theorems
+   above (op_wf), C07's (op_pre_node2) and C20's (op_wf2) take at every step are replaced by
+   ONE contract on traces.  The application has a ghost state
+     appstate = { a_store  its Storage;  a_phase  Idle | Writing rd (WSnap|WEnts|WDone);
+                  a_hist   C07's history of handed-out entries (a_cursor = its end);
+                  a_applied  the applied index last reported;  a_got  something was handed out }
+   and app_ok a o says what it may do (C14_contract_app_ok_def):
+     1. any library call other than the advance calls and storage writes: only when no Ready
+        is being persisted (a_phase = Idle) - no call between ready() and its advance;
+     2. apply_conf_change additionally only after some committed entry was handed out;
+     3. storage writes: the Ready's snapshot (WSnap), then the Ready's entries (WEnts), each
+        exactly as returned by MemStorage (apply_snapshot answered Ok, append answered Ok);
+        hard/conf state at any time; compaction only when Idle, at ci <= a_applied and
+        ci < next index of the store;
+     4. advance / advance_append / advance_append_async: with the Ready just received, after
+        it has been written in full (WDone);
+     5. advance_apply_to x: x <= a_cursor (only what was handed out).
+   app_next is the evolution of the ghost state (it reads the node only through what the call
+   returns).  Environment: peer_msgs_ok (a stepped MsgAppend has consecutive indexes, entry
+   terms >= 1, index + len < u64::MAX, anchor index 0 or non-zero anchor term; a stepped
+   MsgSnapshot has 1 <= index < u64::MAX) and idx_margin (last_index + 1 + entries of a stepped
+   message < u64::MAX: kept as an explicit arithmetic side condition on the node's last
+   index - a global bound would need a quantitative pass over every function).  Start:
+   init_ok (well-formed store, trigger off, first index - 1 <= Config.applied <= commit index
+   of the new node).
+   PROVED
+   * contract_step / contract_trace: the coupling invariant Good (NGood false, i.e. RnInv, LI
+     with the restart window closed, CsiOK; a_store = the node's store; C07's Hist;
+     applied <= commit_since_index <= committed; commit_since_index < unstable offset;
+     max_apply_unpersisted_log_limit = 0; first index of the store <= cursor + 1; a pending
+     snapshot has index >= 1; every outstanding record's snapshot is in the store; the phase
+     describes the unstable state) holds at every point of every contract-abiding trace.
+   * contract_side_conditions: at every point, for every next call allowed by the contract,
+     op_wf, op_wf2, op_pre_node2 and C07's op_pre hold: persist_pre with any number of
+     outstanding records, commit_pre, "first index <= cursor + 1" at ready / advance,
+     1 <= last_index at apply_conf_change.  Storage writes are covered by contract_step
+     directly (compaction is also allowed while a snapshot is pending, which store_write
+     does not cover).
+   * contract_log_ok: LogOK and the index bounds with no per-step side condition.
+   * contract_no_local_or_shape_panic / contract_no_panic_sites: the next call of a
+     contract-abiding application cannot panic at any of C20's 35 node-local and log/storage
+     shape sites, nor (with init_tk: the term at the initial commit index is known) at site
+     1422 (commit_info).  These are the C20 corollaries; they are pinned here because
+     Props/C20.v is generated.
+   * every call leaves the storage, applied (except commit_apply), a pending snapshot and the
+     limit alone, never lowers the commit index nor moves the unstable offset to a committed
+     index (lrel: step_rrel, tick_rrel, idle_exec_rel, ...).
+   WITNESSES (a clause dropped => a failure): compaction above applied => next campaign panics at
+   1422; a step between ready() and advance => advance panics; Config.applied below the
+   store's snapshot point => hand-out does not start at Config.applied + 1 (Props/C07.v);
+   writes other than the Ready / malformed MsgAppend / no head-room: the *_refuted theorems above.
+   REMAINING HYPOTHESES: peer_msgs_ok, idx_margin (per step, arithmetic), init_ok (+ init_tk
+   for 1422); max_apply_unpersisted_log_limit stays 0 because set_max_apply_unpersisted_log_limit
+   is not in the op alphabet (Raft::new resets it).  NOT COVERED: the proofs use the
+   compaction clause only as ci <= cursor; MemStorage's own rule (ci <= applied) is what is
+   stated.  A clause "on_persist_ready only with received numbers, in order" is not needed
+   and not stated. *)
+From RV Require Import M.RaftProofsC20 M.RaftProofsC20Sites M.RaftProofsC20Inv M.RaftProofsC20Safe
+  M.RaftProofsC20Shape M.RaftProofsC20Shape2 M.RaftProofsC20Shape3 M.RaftProofsAppContract.
+
+Theorem C14_contract_a_cursor_def :
+  forall a,
+  a_cursor a = fst (a_hist a) + N.of_nat (length (snd (a_hist a))).
+Proof. exact a_cursor_def. Qed.
+Print Assumptions C14_contract_a_cursor_def.
+
+Theorem C14_contract_stage_def :
+  forall rd,
+  stage1 rd = (match rd_entries rd with [] => WDone | _ => WEnts end)
+  /\ stage0 rd = (if s_index (rd_snapshot rd) =? 0 then stage1 rd else WSnap).
+Proof. exact stage_def. Qed.
+Print Assumptions C14_contract_stage_def.
+
+Theorem C14_contract_meta_write_def :
+  forall st m,
+  meta_write st m <->
+  entries m = entries st /\ snap_index m = snap_index st /\ snap_term m = snap_term st
+  /\ trig_log m = trig_log st.
+Proof. exact meta_write_def. Qed.
+Print Assumptions C14_contract_meta_write_def.
+
+Theorem C14_contract_idle_op_def :
+  forall o,
+  idle_op o = match o with
+              | OStep _ | OTick | OCampaign | OPropose _ _ | OProposeCC _ _ _ _ | OApplyCC _ | OPing
+              | OReportUnreachable _ | OReportSnapshot _ _ | ORequestSnapshot | OTransferLeader _
+              | OReadIndex _ => true
+              | _ => false
+              end.
+Proof. exact idle_op_def. Qed.
+Print Assumptions C14_contract_idle_op_def.
+
+(* THE CONTRACT *)
+Theorem C14_contract_app_ok_def :
+  forall a o,
+  app_ok a o <->
+  match o with
+  | OStep _ | OTick | OCampaign | OPropose _ _ | OProposeCC _ _ _ _ | OPing
+  | OReportUnreachable _ | OReportSnapshot _ _ | ORequestSnapshot | OTransferLeader _
+  | OReadIndex _ | OReady | OOnPersistReady _ | OAdvanceApply => a_phase a = Idle
+  | OApplyCC _ => a_phase a = Idle /\ a_got a = true
+  | OAdvance rd | OAdvanceAppend rd | OAdvanceAppendAsync rd => a_phase a = Writing rd WDone
+  | OAdvanceApplyTo x => a_phase a = Idle /\ x <= a_cursor a
+  | OSetStore m =>
+      meta_write (a_store a) m
+      \/ match a_phase a with
+         | Writing rd WSnap => apply_snapshot (a_store a) (rd_snapshot rd) = Ok (m, SOk tt)
+         | Writing rd WEnts => append (a_store a) (rd_entries rd) = Ok m
+         | Writing _ WDone => False
+         | Idle => exists ci, compact (a_store a) ci = Ok m /\ ci <= a_applied a
+                              /\ ci < next_of (a_store a)
+         end
+  end.
+Proof. exact app_ok_def. Qed.
+Print Assumptions C14_contract_app_ok_def.
+
+Theorem C14_contract_with_obs_def :
+  forall a ot st ph ap,
+  with_obs a ot st ph ap = mkApp st ph (hist_step (a_hist a) ot) ap (a_got a || nonempty (snd ot)).
+Proof. exact with_obs_def. Qed.
+Print Assumptions C14_contract_with_obs_def.
+
+(* evolution of the ghost state *)
+Theorem C14_contract_app_next_iff :
+  forall a n o ot a',
+  app_next a n o ot a' <->
+  (idle_op o = true /\ app_ok a o /\ a' = with_obs a ot (a_store a) Idle (a_applied a))
+  \/ (exists n1 rd, o = OReady /\ a_phase a = Idle /\ rn_ready n = Ok (n1, rd)
+        /\ a' = with_obs a ot (a_store a) (Writing rd (stage0 rd)) (a_applied a))
+  \/ (exists m, o = OSetStore m /\
+        ((meta_write (a_store a) m /\ a' = with_obs a ot m (a_phase a) (a_applied a))
+         \/ (exists rd, a_phase a = Writing rd WSnap
+               /\ apply_snapshot (a_store a) (rd_snapshot rd) = Ok (m, SOk tt)
+               /\ a' = with_obs a ot m (Writing rd (stage1 rd)) (a_applied a))
+         \/ (exists rd, a_phase a = Writing rd WEnts /\ append (a_store a) (rd_entries rd) = Ok m
+               /\ a' = with_obs a ot m (Writing rd WDone) (a_applied a))
+         \/ (exists ci, a_phase a = Idle /\ compact (a_store a) ci = Ok m /\ ci <= a_applied a
+               /\ ci < next_of (a_store a) /\ a' = with_obs a ot m Idle (a_applied a))))
+  \/ (exists rd, a_phase a = Writing rd WDone /\
+        ((o = OAdvance rd /\ a' = with_obs a ot (a_store a) Idle
+                                    (if a_cursor a =? 0 then a_applied a else a_cursor a))
+         \/ ((o = OAdvanceAppend rd \/ o = OAdvanceAppendAsync rd)
+             /\ a' = with_obs a ot (a_store a) Idle (a_applied a))))
+  \/ (a_phase a = Idle /\
+        ((exists k, o = OOnPersistReady k /\ a' = with_obs a ot (a_store a) Idle (a_applied a))
+         \/ (o = OAdvanceApply /\ a' = with_obs a ot (a_store a) Idle
+                                        (if a_cursor a =? 0 then a_applied a else a_cursor a))
+         \/ (exists x, o = OAdvanceApplyTo x /\ x <= a_cursor a
+               /\ a' = with_obs a ot (a_store a) Idle (if x =? 0 then a_applied a else x)))).
+Proof. exact app_next_iff. Qed.
+Print Assumptions C14_contract_app_next_iff.
+
+Theorem C14_contract_app_next_ok :
+  forall a n o ot a',
+  app_next a n o ot a' -> app_ok a o.
+Proof. exact app_next_ok. Qed.
+Print Assumptions C14_contract_app_next_ok.
+
+(* the environment *)
+Theorem C14_contract_peer_msgs_ok_def :
+  forall m,
+  peer_msgs_ok m <->
+  (m_type m = MsgAppend ->
+     contiguous_from (m_index m + 1) (m_entries m) /\ Forall (fun e => e_term e <> 0) (m_entries m)
+     /\ m_index m + N.of_nat (length (m_entries m)) < u64_max
+     /\ (m_index m = 0 \/ m_log_term m <> 0))
+  /\ (m_type m = MsgSnapshot -> 1 <= s_index (m_snapshot m) < u64_max).
+Proof. exact peer_msgs_ok_def. Qed.
+Print Assumptions C14_contract_peer_msgs_ok_def.
+
+Theorem C14_contract_peer_ok_def :
+  forall o,
+  peer_ok o <-> match o with OStep m => peer_msgs_ok m | _ => True end.
+Proof. exact peer_ok_def. Qed.
+Print Assumptions C14_contract_peer_ok_def.
+
+Theorem C14_contract_idx_margin_def :
+  forall n o,
+  idx_margin n o <->
+  last_index (r_log (rn_raft n)) + 1
+  + match o with OStep m => N.of_nat (length (m_entries m)) | _ => 0 end < u64_max.
+Proof. exact idx_margin_def. Qed.
+Print Assumptions C14_contract_idx_margin_def.
+
+Theorem C14_contract_init_ok_def :
+  forall c st n0,
+  init_ok c st n0 <->
+  SInv st /\ trig_log st = false /\ first_of st - 1 <= c_applied c
+  /\ c_applied c <= committed (r_log (rn_raft n0)).
+Proof. exact init_ok_def. Qed.
+Print Assumptions C14_contract_init_ok_def.
+
+Theorem C14_contract_init_app_def :
+  forall c st,
+  init_app c st = mkApp st Idle (c_applied c, []) (c_applied c) false.
+Proof. exact init_app_def. Qed.
+Print Assumptions C14_contract_init_app_def.
+
+(* contract-abiding traces *)
+Theorem C14_contract_crun_iff :
+  forall a n a' n',
+  crun a n a' n' <->
+  (a' = a /\ n' = n)
+  \/ exists o n1 ot a1, app_next a n o ot a1 /\ peer_ok o /\ idx_margin n o
+       /\ exec n o = Ok (n1, ot) /\ crun a1 n1 a' n'.
+Proof. exact crun_iff. Qed.
+Print Assumptions C14_contract_crun_iff.
+
+Theorem C14_contract_recs_done_def :
+  forall a n,
+  recs_done a n = match a_phase a with
+                  | Writing _ WSnap => removelast (rn_records n)
+                  | _ => rn_records n
+                  end.
+Proof. exact recs_done_def. Qed.
+Print Assumptions C14_contract_recs_done_def.
+
+Theorem C14_contract_phase_ok_def :
+  forall a n,
+  phase_ok a n <->
+  match a_phase a with
+  | Idle => True
+  | Writing rd st =>
+      let l := r_log (rn_raft n) in
+      let rr := List.last (rn_records n) (mkRR 0 None None false) in
+      rn_records n <> []
+      /\ rd_entries rd = u_entries (unst l)
+      /\ rd_snapshot rd = match u_snapshot (unst l) with Some s => s | None => snap_default end
+      /\ rr_last_entry rr = rec_last_of (u_entries (unst l))
+      /\ rr_snapshot rr = option_map (fun s => (s_index s, s_term s)) (u_snapshot (unst l))
+      /\ (forall s, u_snapshot (unst l) = Some s -> rn_commit_since_index n = s_index s)
+      /\ match st with
+         | WSnap => u_snapshot (unst l) <> None
+         | WEnts => snap_written l /\ u_entries (unst l) <> []
+         | WDone => snap_written l /\ (u_entries (unst l) <> [] -> ents_written l)
+         end
+  end.
+Proof. exact phase_ok_def. Qed.
+Print Assumptions C14_contract_phase_ok_def.
+
+(* the coupling invariant *)
+Theorem C14_contract_Good_iff :
+  forall a n,
+  Good a n <->
+  NGood false n
+  /\ a_store a = store (r_log (rn_raft n))
+  /\ Hist n (a_hist a)
+  /\ a_applied a = applied (r_log (rn_raft n))
+  /\ applied (r_log (rn_raft n)) <= rn_commit_since_index n
+  /\ rn_commit_since_index n <= committed (r_log (rn_raft n))
+  /\ rn_commit_since_index n < u_offset (unst (r_log (rn_raft n)))
+  /\ max_apply_unpersisted_log_limit (r_log (rn_raft n)) = 0
+  /\ first_of (store (r_log (rn_raft n))) <= rn_commit_since_index n + 1
+  /\ (forall s, u_snapshot (unst (r_log (rn_raft n))) = Some s -> 1 <= s_index s)
+  /\ (a_got a = true -> 1 <= committed (r_log (rn_raft n)))
+  /\ (forall rr i t, In rr (recs_done a n) -> rr_snapshot rr = Some (i, t) ->
+                     i < first_of (store (r_log (rn_raft n))))
+  /\ phase_ok a n.
+Proof. exact Good_iff. Qed.
+Print Assumptions C14_contract_Good_iff.
+
+(* what a library call does to the log, seen from outside *)
+Theorem C14_contract_lrel_def :
+  forall Q l l',
+  lrel Q l l' <->
+  (store l' = store l
+   /\ committed l <= committed l'
+   /\ (u_snapshot (unst l) <> None -> u_snapshot (unst l') <> None)
+   /\ (forall s, u_snapshot (unst l') = Some s -> u_snapshot (unst l) = Some s \/ Q s)
+   /\ (forall b, b <= committed l -> b < u_offset (unst l) -> b < u_offset (unst l'))
+   /\ (max_apply_unpersisted_log_limit l = 0 -> max_apply_unpersisted_log_limit l' = 0))
+  /\ applied l' = applied l.
+Proof. exact lrel_def. Qed.
+Print Assumptions C14_contract_lrel_def.
+
+Theorem C14_contract_snap_of_def :
+  forall m s,
+  snap_of m s <-> m_type m = MsgSnapshot /\ s = m_snapshot m.
+Proof. exact snap_of_def. Qed.
+Print Assumptions C14_contract_snap_of_def.
+
+Theorem C14_contract_op_snap_def :
+  forall o s,
+  op_snap o s <-> match o with OStep m => snap_of m s | _ => False end.
+Proof. exact op_snap_def. Qed.
+Print Assumptions C14_contract_op_snap_def.
+
+Theorem C14_contract_idle_exec_rel :
+  forall n o n' ot,
+  idle_op o = true -> exec n o = Ok (n', ot) ->
+  lrel (op_snap o) (nlog n) (nlog n')
+  /\ rn_records n' = rn_records n /\ rn_max_number n' = rn_max_number n
+  /\ rn_commit_since_index n' = rn_commit_since_index n /\ ot = no_out.
+Proof. exact idle_exec_rel. Qed.
+Print Assumptions C14_contract_idle_exec_rel.
+
+Theorem C14_contract_on_persist_ready_rel :
+  forall n k n',
+  rn_on_persist_ready n k = Ok n' ->
+  lrel (fun _ => False) (nlog n) (nlog n')
+  /\ (forall rr, In rr (rn_records n') -> In rr (rn_records n))
+  /\ rn_commit_since_index n' = rn_commit_since_index n.
+Proof. exact on_persist_ready_rel. Qed.
+Print Assumptions C14_contract_on_persist_ready_rel.
+
+Theorem C14_contract_raft_new_shape :
+  forall c st sa dr r,
+  raft_new c st sa dr = Ok (inr r) -> SInv st ->
+  unst (r_log r) = u_new (next_of st)
+  /\ max_apply_unpersisted_log_limit (r_log r) = 0
+  /\ applied (r_log r) = (if 0 <? c_applied c then c_applied c else first_of st - 1).
+Proof. exact raft_new_shape. Qed.
+Print Assumptions C14_contract_raft_new_shape.
+
+(* the side conditions follow from the contract *)
+Theorem C14_contract_side_ok :
+  forall a n o,
+  Good a n -> app_ok a o -> peer_ok o -> idx_margin n o -> (forall m, o <> OSetStore m) ->
+  op_wf2 n o /\ op_pre_node2 n o.
+Proof. exact side_ok. Qed.
+Print Assumptions C14_contract_side_ok.
+
+(* one contract-abiding call *)
+Theorem C14_contract_contract_step :
+  forall a n o ot a' n',
+  Good a n -> app_next a n o ot a' -> peer_ok o -> idx_margin n o ->
+  exec n o = Ok (n', ot) -> Good a' n'.
+Proof. exact contract_step. Qed.
+Print Assumptions C14_contract_contract_step.
+
+Theorem C14_contract_init_good :
+  forall c st sa dr n0,
+  rn_new c st sa dr = Ok (inr n0) -> init_ok c st n0 -> Good (init_app c st) n0.
+Proof. exact init_good. Qed.
+Print Assumptions C14_contract_init_good.
+
+Theorem C14_contract_crun_good :
+  forall a n a' n',
+  crun a n a' n' -> Good a n -> Good a' n'.
+Proof. exact crun_good. Qed.
+Print Assumptions C14_contract_crun_good.
+
+Theorem C14_contract_contract_trace :
+  forall c st sa dr n0 a n,
+  rn_new c st sa dr = Ok (inr n0) -> init_ok c st n0 -> crun (init_app c st) n0 a n -> Good a n.
+Proof. exact contract_trace. Qed.
+Print Assumptions C14_contract_contract_trace.
+
+(* (1) C14 node level without per-step side conditions *)
+Theorem C14_contract_contract_log_ok :
+  forall c st sa dr n0 a n,
+  rn_new c st sa dr = Ok (inr n0) -> init_ok c st n0 -> crun (init_app c st) n0 a n ->
+  NLI false n
+  /\ applied (nlog n) <= committed (nlog n) /\ committed (nlog n) <= last_index (nlog n)
+  /\ last_index (nlog n) < u64_max
+  /\ persisted (nlog n) <= storage_last_index (store (nlog n))
+  /\ applied (nlog n) <= rn_commit_since_index n /\ rn_commit_since_index n <= committed (nlog n)
+  /\ first_of (store (nlog n)) <= rn_commit_since_index n + 1
+  /\ a_store a = store (nlog n) /\ a_applied a = applied (nlog n)
+  /\ a_cursor a = rn_commit_since_index n.
+Proof. exact contract_log_ok. Qed.
+Print Assumptions C14_contract_contract_log_ok.
+
+Theorem C14_contract_contract_side_conditions :
+  forall c st sa dr n0 a n o,
+  rn_new c st sa dr = Ok (inr n0) -> init_ok c st n0 -> crun (init_app c st) n0 a n ->
+  app_ok a o -> peer_ok o -> idx_margin n o -> (forall m, o <> OSetStore m) ->
+  op_wf n o /\ op_wf2 n o /\ op_pre_node2 n o /\ op_pre n o.
+Proof. exact contract_side_conditions. Qed.
+Print Assumptions C14_contract_contract_side_conditions.
+
+(* (3) C20: no panic at the 35 sites *)
+Theorem C14_contract_contract_next_no_panic :
+  forall a n o s,
+  Good a n -> app_ok a o -> peer_ok o -> idx_margin n o -> exec n o = Panic s -> ~ In s all_sites.
+Proof. exact contract_next_no_panic. Qed.
+Print Assumptions C14_contract_contract_next_no_panic.
+
+Theorem C14_contract_contract_no_local_or_shape_panic :
+  forall c st sa dr n0 a n o s,
+  rn_new c st sa dr = Ok (inr n0) -> init_ok c st n0 -> crun (init_app c st) n0 a n ->
+  app_ok a o -> peer_ok o -> idx_margin n o -> exec n o = Panic s -> ~ In s all_sites.
+Proof. exact contract_no_local_or_shape_panic. Qed.
+Print Assumptions C14_contract_contract_no_local_or_shape_panic.
+
+(* site 1422 *)
+Theorem C14_contract_TK_def :
+  forall l,
+  TK l <-> match u_snapshot (unst l) with
+           | Some _ => True
+           | None => first_of (store l) - 1 = snap_index (store l) \/ first_of (store l) <= committed l
+           end.
+Proof. exact TK_def. Qed.
+Print Assumptions C14_contract_TK_def.
+
+Theorem C14_contract_init_tk_def :
+  forall st n0,
+  init_tk st n0 <-> first_of st - 1 = snap_index st \/ first_of st <= committed (r_log (rn_raft n0)).
+Proof. exact init_tk_def. Qed.
+Print Assumptions C14_contract_init_tk_def.
+
+Theorem C14_contract_tk_commit_info :
+  forall rw l,
+  RepInv rw l -> TK l -> exists v, commit_info l = Ok v.
+Proof. exact tk_commit_info. Qed.
+Print Assumptions C14_contract_tk_commit_info.
+
+Theorem C14_contract_step_22 :
+  forall rw r m,
+  LI rw r -> msg_wf (last_index (r_log r)) m -> TK (r_log r) -> step r m = Panic s1422 -> False.
+Proof. exact step_22. Qed.
+Print Assumptions C14_contract_step_22.
+
+Theorem C14_contract_tick_22 :
+  forall rw r,
+  LI rw r -> room 1 r -> TK (r_log r) -> tick r = Panic s1422 -> False.
+Proof. exact tick_22. Qed.
+Print Assumptions C14_contract_tick_22.
+
+Theorem C14_contract_exec_22 :
+  forall a n o,
+  Good a n -> TK (nlog n) -> app_ok a o -> peer_ok o -> idx_margin n o ->
+  exec n o = Panic s1422 -> False.
+Proof. exact exec_22. Qed.
+Print Assumptions C14_contract_exec_22.
+
+Theorem C14_contract_contract_step_tk :
+  forall a n o ot a' n',
+  Good a n -> TK (nlog n) -> app_next a n o ot a' -> peer_ok o -> idx_margin n o ->
+  exec n o = Ok (n', ot) -> TK (nlog n').
+Proof. exact contract_step_tk. Qed.
+Print Assumptions C14_contract_contract_step_tk.
+
+Theorem C14_contract_crun_tk :
+  forall a n a' n',
+  crun a n a' n' -> Good a n -> TK (nlog n) -> Good a' n' /\ TK (nlog n').
+Proof. exact crun_tk. Qed.
+Print Assumptions C14_contract_crun_tk.
+
+Theorem C14_contract_contract_no_panic_sites :
+  forall c st sa dr n0 a n o s,
+  rn_new c st sa dr = Ok (inr n0) -> init_ok c st n0 -> init_tk st n0 ->
+  crun (init_app c st) n0 a n ->
+  app_ok a o -> peer_ok o -> idx_margin n o -> exec n o = Panic s ->
+  ~ In s (site_l_commit_info :: all_sites).
+Proof. exact contract_no_panic_sites. Qed.
+Print Assumptions C14_contract_contract_no_panic_sites.
+
+Theorem C14_contract_step_rrel :
+  forall (Q : snapshot -> Prop) r m r' c,
+  (m_type m = MsgSnapshot -> Q (m_snapshot m)) -> step r m = Ok (r', c) ->
+  lrel Q (r_log r) (r_log r').
+Proof. exact step_rrel. Qed.
+Print Assumptions C14_contract_step_rrel.
+
+Theorem C14_contract_tick_rrel :
+  forall (Q : snapshot -> Prop) r r' b,
+  tick r = Ok (r', b) -> lrel Q (r_log r) (r_log r').
+Proof. exact tick_rrel. Qed.
+Print Assumptions C14_contract_tick_rrel.
+
+Theorem C14_contract_commit_apply_rel :
+  forall (Q : snapshot -> Prop) r a r',
+  commit_apply r a = Ok r' ->
+  lrel0 Q (r_log r) (r_log r')
+  /\ applied (r_log r') = (if a =? 0 then applied (r_log r) else a)
+  /\ (a <> 0 -> applied (r_log r) <= a <= committed (r_log r)).
+Proof. exact commit_apply_rel. Qed.
+Print Assumptions C14_contract_commit_apply_rel.
+
+Import Samples RepInvSamples ContractSamples ContractWitnesses.
+
+(* non-vacuity: the follower trace (MsgAppend, ready, write, advance, MsgSnapshot, ready, apply, advance) is contract-abiding *)
+Theorem C14_contract_ex_contract_trace :
+  exists a, crun (init_app cfg store3) f0 a f6.
+Proof. exact ex_contract_trace. Qed.
+Print Assumptions C14_contract_ex_contract_trace.
+
+(* the compaction clause is needed *)
+Theorem C14_contract_compact_above_applied_refuted :
+  exists a, crun (init_app cfg store3) f0 a f3 /\ a_phase a = Idle /\ a_applied a = 0
+      /\ compact (a_store a) 2 = Ok mc /\ 2 < next_of (a_store a)
+      /\ rn_campaign (set_store_node f3 mc) = Panic site_l_commit_info.
+Proof. exact compact_above_applied_refuted. Qed.
+Print Assumptions C14_contract_compact_above_applied_refuted.
+
+(* clause 1 is needed *)
+Theorem C14_contract_step_between_ready_and_advance_refuted :
+  peer_msgs_ok app3
+    /\ exec (fst rd1) (OStep app3) = Ok (w2a, no_out)
+    /\ append (store (nlog w2a)) (rd_entries (snd rd1)) = Ok st1
+    /\ exec (set_store_node w2a st1) (OAdvance (snd rd1)) = Panic site_u_stable_entries_mismatch.
+Proof. exact step_between_ready_and_advance_refuted. Qed.
+Print Assumptions C14_contract_step_between_ready_and_advance_refuted.
+
